@@ -31,7 +31,11 @@ Definition finish (r : res (option (slots * state * nat))) (o_sl : slots) (o_st 
   | RDone (Some (sl, st, c)) rest =>
       of_bool (match rest with [] => true | _ => false end
                && slots_eqb sl o_sl && bools_eqb st o_st && Nat.eqb c o_cutoff
-               && valid_decomp o_st o_sl)
+               && valid_decomp o_st o_sl
+               (* the configuration the model (= the implementation) ends in is a consistent periodic
+                  world line: evaluated in Coq for the updates whose preservation is not a theorem
+                  (directed loop), redundant for the others *)
+               && wf o_st o_sl)
   | RDone None _ => VFail
   | RIndet => VIndet
   | RBad _ => VFail
